@@ -116,11 +116,25 @@ def plantedDecode (s : String) : Option (Option (Bytes × Option Nat)) :=
       | _, _ => none
     | _ => none
 
+/-- the request's `X-Amz-SignedHeaders` query value carries a control character (raw or as `%0x` / `%1x`) -/
+def signedHeadersCtl (uriH : String) : Bool :=
+  match hexDecode uriH with
+  | none => false
+  | some uri =>
+    match (str uri).splitOn "X-Amz-SignedHeaders=" with
+    | _ :: v :: _ =>
+      let val := (v.splitOn "&").headD ""
+      val.toList.any (fun c => c.toNat < 32) || ((val.splitOn "%").drop 1).any (fun p =>
+        match p.toList with
+        | d :: _ => d = '0' || d = '1'
+        | [] => false)
+    | _ => false
+
 def statusClass (n : Nat) : String := s!"{n / 100}xx"
 
 def judgeFuzzcall (id : String) (ins outs : List String) : String :=
   match ins with
-  | [_cfg, _backend, plantedS, _version, _method, _uri, _headers, _body, _sign] =>
+  | [_cfg, _backend, plantedS, _version, _method, uriH, _headers, _body, _sign] =>
     match plantedDecode plantedS with
     | none => badline id
     | some planted =>
@@ -138,7 +152,8 @@ def judgeFuzzcall (id : String) (ins outs : List String) : String :=
             | none =>
               -- a body that no XML processor accepts because of a C0 control character is its own class
               let ctl := body.any fun b => b.toNat < 32 && b.toNat ≠ 9 && b.toNat ≠ 10 && b.toNat ≠ 13
-              specfail id (if ctl then "error-body-control-char" else "error-body-not-error-document")
+              specfail id (if ctl then (if signedHeadersCtl uriH then "error-body-control-char-signed-headers"
+                                        else "error-body-control-char") else "error-body-not-error-document")
                 s!"status {status}, body {hexEncode (body.take 200)}"
             | some info =>
               let documented : List (Option Nat) := match fromBytes info.code with
